@@ -661,6 +661,20 @@ ASSUMPTIONS = [
     "camera step: the buffer dict with symbolic keys is CrossHair's dict model (dict(pairs) under analysis; a plain dict in native replay); representation invariant: arbitrary mapping key -> list of chunks",
     "SimLoop: real asyncio scheduler (eager tasks, done callbacks) on a virtual clock",
 ]
+# repo functions entered by shards other than the two sampled per harness function for the evidence file
+ALSO_ENCODED = [
+    "client.py:APIClient.subscribe_service_calls", "client.py:APIClient.subscribe_home_assistant_states",
+    "client.py:APIClient.subscribe_bluetooth_le_advertisements", "client.py:APIClient.subscribe_bluetooth_connections_free",
+    "client.py:APIClient._create_background_task",
+    "client.py:APIClient.subscribe_voice_assistant.<locals>._on_voice_assistant_request",
+    "client.py:APIClient.subscribe_voice_assistant.<locals>._on_voice_assistant_audio",
+    "client.py:APIClient.subscribe_voice_assistant.<locals>._on_voice_assistant_announcement_finished",
+    "client.py:APIClient.subscribe_voice_assistant.<locals>._started",
+    "client_callbacks.py:on_home_assistant_service_response", "client_callbacks.py:on_subscribe_home_assistant_state_response",
+    "client_callbacks.py:on_bluetooth_le_advertising_response", "client_callbacks.py:on_bluetooth_connections_free_response",
+    "model.py:APIIntEnum.convert", "model.py:BluetoothLEAdvertisement.from_pb", "model.py:_convert_homeassistant_service_map",
+    "util.py:create_eager_task",
+]
 EXPLANATION = ("C17: oracle = per-key concatenation model for camera chunks (one-step inductive + end-to-end), field-by-field comparison of the single "
                "callback's model with the message for all 21 state types, and for every subscribe_* a reference list 'messages between the "
                "subscribe point and the unsubscribe point' compared with the recorded callbacks in order; voice assistant additionally the written responses.")
